@@ -30,7 +30,20 @@
 (* counts, find_by_revision.  `Answers(m, viaCache)` computes all of them   *)
 (* from an object map; property C09 is                                     *)
 (*       Answers(cache, TRUE, n) = Answers(Direct, FALSE, n)                *)
+(* (one record of answers per repository)                                   *)
 (* in every reachable state.                                               *)
+(*                                                                         *)
+(* One database, several repositories.  The cache is a single database of  *)
+(* the node, shared by all its repositories (`rad` opens one cache.db for   *)
+(* every repository in storage).  Every object belongs to one repository    *)
+(* (field `repo` of its creation); `cache` holds the rows of all of them,   *)
+(* every query is asked about one repository and must only see that         *)
+(* repository's rows: QueriesAgree is stated per repository, whatever the   *)
+(* other repositories contain.  (Identifiers of objects, revisions and      *)
+(* comments are commit ids that cover the repository's identity, so two     *)
+(* repositories never share one; the model issues globally fresh ids.)      *)
+(* The constant Unscoped names queries whose cached implementation forgets  *)
+(* the `repo = ?` condition (MCCobCache_dev_Unscoped*.cfg: TLC rejects).    *)
 (*                                                                         *)
 (* Three constants switch on what the code did before the fixes recorded   *)
 (* in props/C09.findings.json (TLC rejects each, MCCobCache_dev*.cfg):     *)
@@ -49,8 +62,11 @@ CONSTANTS
     MaxObjs,        \* bound on the number of objects ever created
     MaxOps,         \* bound on the total number of operations (creations included)
     MaxSteps,       \* bound on the number of steps (operations, removals, write_all)
+    NRepos,         \* number of repositories sharing the cache database
+    Unscoped,       \* subset of {"get", "list", "status", "counts", "find"}: cached queries that ignore the repository
     JsonTree, StatusOnly, RemoveDrops
 
+Repos == 1..NRepos
 Me   == "me"
 Peer == "peer"
 NS   == {Me, Peer}
@@ -78,11 +94,11 @@ MaxOf(S)       == CHOOSE x \in S : \A y \in S : y <= x
 
 -----------------------------------------------------------------------------
 \* Operations and evaluation (what Patch::op / Issue::op compute, as far as the cache cares)
-\* op = [k, id, by, arg, st, kind]
+\* op = [k, id, by, arg, st, kind, repo]
 
 ApplyOp(v, o) ==
     CASE o.k = "create" ->
-            [kind |-> o.kind, status |-> o.st, author |-> o.by,
+            [kind |-> o.kind, repo |-> o.repo, status |-> o.st, author |-> o.by,
              revs |-> IF o.kind = "patch" THEN (o.id :> "live") ELSE <<>>,
              revby |-> IF o.kind = "patch" THEN (o.id :> o.by) ELSE <<>>,
              comments |-> <<>>, reviews |-> <<>>,
@@ -142,15 +158,29 @@ Counts(m, kind) ==
 
 Unknown == 0
 
-\* n = number of identifiers issued so far: every one of them is used as a query argument
-Answers(m, viaCache, n) ==
-    [get    |-> [i \in 1..n |-> IF i \in DOMAIN m THEN m[i] ELSE None],
-     list   |-> [patch |-> OfKind(m, "patch"), issue |-> OfKind(m, "issue")],
-     status |-> [patch |-> [s \in PatchStatus |-> ListByStatus(m, "patch", s, FALSE)],
-                 issue |-> [s \in IssueStatus |-> ListByStatus(m, "issue", s, viaCache /\ StatusOnly)]],
-     counts |-> [patch |-> Counts(m, "patch"), issue |-> Counts(m, "issue")],
-     find   |-> [x \in 1..n |-> FindByRevision(m, x, viaCache /\ JsonTree)],
-     findUnknown |-> FindByRevision(m, Unknown, viaCache /\ JsonTree)]
+\* the rows of repository r
+InRepo(m, r) == [i \in {j \in DOMAIN m : m[j].repo = r} |-> m[i]]
+\* what the implementation of query q looks at when asked about repository r
+Scope(m, r, q, viaCache) == IF viaCache /\ q \in Unscoped THEN m ELSE InRepo(m, r)
+
+\* all answers about repository r; n = number of identifiers issued so far (in any repository):
+\* every one of them is used as a query argument
+AnswersIn(m, viaCache, n, r) ==
+    LET mg == Scope(m, r, "get", viaCache)
+        ml == Scope(m, r, "list", viaCache)
+        ms == Scope(m, r, "status", viaCache)
+        mc == Scope(m, r, "counts", viaCache)
+        mf == Scope(m, r, "find", viaCache)
+    IN
+    [get    |-> [i \in 1..n |-> IF i \in DOMAIN mg THEN mg[i] ELSE None],
+     list   |-> [patch |-> OfKind(ml, "patch"), issue |-> OfKind(ml, "issue")],
+     status |-> [patch |-> [s \in PatchStatus |-> ListByStatus(ms, "patch", s, FALSE)],
+                 issue |-> [s \in IssueStatus |-> ListByStatus(ms, "issue", s, viaCache /\ StatusOnly)]],
+     counts |-> [patch |-> Counts(mc, "patch"), issue |-> Counts(mc, "issue")],
+     find   |-> [x \in 1..n |-> FindByRevision(mf, x, viaCache /\ JsonTree)],
+     findUnknown |-> FindByRevision(mf, Unknown, viaCache /\ JsonTree)]
+
+Answers(m, viaCache, n) == [r \in Repos |-> AnswersIn(m, viaCache, n, r)]
 
 \* C09
 QueriesAgree == Answers(cache, TRUE, next - 1) = Answers(Direct, FALSE, next - 1)
@@ -160,7 +190,7 @@ CacheCoherent == cache = Direct
 -----------------------------------------------------------------------------
 \* Operations an actor may perform on object i in its current state v
 
-NewOp(k, by, arg, st) == [k |-> k, id |-> next, by |-> by, arg |-> arg, st |-> st, kind |-> "-"]
+NewOp(k, by, arg, st) == [k |-> k, id |-> next, by |-> by, arg |-> arg, st |-> st, kind |-> "-", repo |-> 0]
 
 OpsOn(i, by) ==
     LET v == Value(i) IN
@@ -179,9 +209,10 @@ OpsOn(i, by) ==
            {NewOp("comment", by, 0, "-")}
       \cup {NewOp("status", by, 0, s) : s \in IF by = Me \/ v.author = by THEN IssueStatus \ {v.status} ELSE {}}
 
-NoOp == [k |-> "-", id |-> 0, by |-> "-", arg |-> 0, st |-> "-", kind |-> "-"]
-CreateOp(kind, by, st) == [k |-> "create", id |-> next, by |-> by, arg |-> 0, st |-> st, kind |-> kind]
-Creations(by) == {CreateOp("patch", by, st) : st \in {"open", "draft"}} \cup {CreateOp("issue", by, "open")}
+NoOp == [k |-> "-", id |-> 0, by |-> "-", arg |-> 0, st |-> "-", kind |-> "-", repo |-> 0]
+CreateOp(kind, by, st, r) == [k |-> "create", id |-> next, by |-> by, arg |-> 0, st |-> st, kind |-> kind, repo |-> r]
+Creations(by) == {CreateOp("patch", by, st, r) : st \in {"open", "draft"}, r \in Repos}
+                 \cup {CreateOp("issue", by, "open", r) : r \in Repos}
 
 -----------------------------------------------------------------------------
 \* Steps
@@ -257,12 +288,15 @@ FetchedDelete(i) ==
     /\ UNCHANGED <<hist, next>>
     /\ Record([a |-> "fetchedDelete", obj |-> i, op |-> NoOp])
 
-\* Cache::write_all for one kind: clear, then insert everything direct evaluation lists
-WriteAll(kind) ==
-    /\ cache' = [i \in (DOMAIN cache \ OfKind(cache, kind)) \cup OfKind(Direct, kind) |->
-                    IF i \in OfKind(Direct, kind) THEN Direct[i] ELSE cache[i]]
+\* Cache::write_all for one kind in one repository: delete that repository's rows of the kind,
+\* then insert everything direct evaluation lists there
+WriteAll(kind, r) ==
+    LET old == OfKind(InRepo(cache, r), kind)
+        new == OfKind(InRepo(Direct, r), kind)
+    IN
+    /\ cache' = [i \in (DOMAIN cache \ old) \cup new |-> IF i \in new THEN Direct[i] ELSE cache[i]]
     /\ UNCHANGED <<hist, tip, next>>
-    /\ Record([a |-> "writeAll", obj |-> 0, op |-> [NoOp EXCEPT !.kind = kind]])
+    /\ Record([a |-> "writeAll", obj |-> 0, op |-> [NoOp EXCEPT !.kind = kind, !.repo = r]])
 
 Next ==
     /\ steps < MaxSteps
@@ -271,7 +305,7 @@ Next ==
        \/ \E i \in Objs : Exists(i) /\ (\E o \in OpsOn(i, Me) : LocalOp(i, o))
        \/ \E i \in Objs : Exists(i) /\ (\E o \in OpsOn(i, Peer) : FetchedOp(i, o))
        \/ \E i \in Objs : RemoveMine(i) \/ FetchedDelete(i)
-       \/ \E kind \in {"patch", "issue"} : WriteAll(kind)
+       \/ \E kind \in {"patch", "issue"}, r \in Repos : WriteAll(kind, r)
 
 Spec == Init /\ [][Next]_vars
 =============================================================================
